@@ -114,29 +114,29 @@ def check_static(sc, excl=()) -> Obligation:
             if dr != de:
                 fn.why = "condense_static_mods differs from the explicit form: " + D.diff(dr, de)
                 return False
-            text_c = sf_condense(rule.copy())
+            text_c = sf_condense(rule)
             if text_c != expl.serialize():
                 fn.why = f"sequence_funcs.condense_static_mods text {text_c!r} != {expl.serialize()!r}"
                 return False
             for ion in IONS:
                 for z in ((0, 1, 2) if ion == "p" else (1, 2)):
-                    a = mass(rule.copy(), charge=z, ion_type=ion, monoisotopic=sc["mono"])
-                    b = mass(expl.copy(), charge=z, ion_type=ion, monoisotopic=sc["mono"])
-                    c = mass(cond.copy(), charge=z, ion_type=ion, monoisotopic=sc["mono"])
+                    a = mass(rule, charge=z, ion_type=ion, monoisotopic=sc["mono"])
+                    b = mass(expl, charge=z, ion_type=ion, monoisotopic=sc["mono"])
+                    c = mass(cond, charge=z, ion_type=ion, monoisotopic=sc["mono"])
                     props.append(SR.close(a, b, 1e-9))
                     props.append(SR.close(c, b, 1e-9))
-                    ca, da = comp_mass(rule.copy(), ion_type=ion, charge=z)
-                    cb, db = comp_mass(expl.copy(), ion_type=ion, charge=z)
+                    ca, da = comp_mass(rule, ion_type=ion, charge=z)
+                    cb, db = comp_mass(expl, ion_type=ion, charge=z)
                     if sorted(ca.items()) != sorted(cb.items()):
                         fn.why = f"composition differs for ion {ion}: {ca} vs {cb}"
                         return False
                     props.append(SR.T(da) == SR.T(db))
-            if count_residues(rule.copy()) != count_residues(expl.copy()):
+            if count_residues(rule) != count_residues(expl):
                 fn.why = "count_residues differs"
                 return False
             if not (F_FRAG_TERM in excl and has_term):
-                fa = fragment(rule.copy(), ["b", "y", "c", "z"], [1, 2], monoisotopic=sc["mono"])
-                fb = fragment(expl.copy(), ["b", "y", "c", "z"], [1, 2], monoisotopic=sc["mono"])
+                fa = fragment(rule, ["b", "y", "c", "z"], [1, 2], monoisotopic=sc["mono"])
+                fb = fragment(expl, ["b", "y", "c", "z"], [1, 2], monoisotopic=sc["mono"])
                 if [(f.ion_type, f.start, f.end, f.charge) for f in fa] != [(f.ion_type, f.start, f.end, f.charge) for f in fb]:
                     fn.why = "fragment lists differ in structure"
                     return False
@@ -191,26 +191,26 @@ def main(p):
     cond = rule.condense_static_mods(inplace=False)
     if D.norm_empty(D.dump(cond)) != D.norm_empty(D.dump(expl)):
         problems.append("condense_static_mods != explicit form: " + D.diff(D.norm_empty(D.dump(cond)), D.norm_empty(D.dump(expl)))); sites.add("other")
-    if sf_condense(rule.copy()) != expl.serialize():
+    if sf_condense(rule) != expl.serialize():
         problems.append("sequence_funcs.condense_static_mods text differs"); sites.add("other")
     tol = 1e-6
     for ion in c12.IONS:
         for z in ((0, 1, 2) if ion == "p" else (1, 2)):
-            a = pt.mass(rule.copy(), charge=z, ion_type=ion, monoisotopic=sc["mono"])
-            b = pt.mass(expl.copy(), charge=z, ion_type=ion, monoisotopic=sc["mono"])
-            c = pt.mass(cond.copy(), charge=z, ion_type=ion, monoisotopic=sc["mono"])
+            a = pt.mass(rule, charge=z, ion_type=ion, monoisotopic=sc["mono"])
+            b = pt.mass(expl, charge=z, ion_type=ion, monoisotopic=sc["mono"])
+            c = pt.mass(cond, charge=z, ion_type=ion, monoisotopic=sc["mono"])
             if abs(a - b) > tol or abs(c - b) > tol:
                 problems.append(f"mass ion={ion} z={z}: rule {a!r} condensed {c!r} explicit {b!r}"); sites.add("other")
-            ca, da = comp_mass(rule.copy(), ion_type=ion, charge=z)
-            cb, db = comp_mass(expl.copy(), ion_type=ion, charge=z)
+            ca, da = comp_mass(rule, ion_type=ion, charge=z)
+            cb, db = comp_mass(expl, ion_type=ion, charge=z)
             if sorted(ca.items()) != sorted(cb.items()) or abs(da - db) > tol:
                 problems.append(f"comp_mass ion={ion} z={z} differs"); sites.add("other")
-    if count_residues(rule.copy()) != count_residues(expl.copy()):
+    if count_residues(rule) != count_residues(expl):
         problems.append("count_residues differs"); sites.add("other")
     has_term = any(t in ("N-Term", "C-Term") for tg, _ in sc["static"] for t in tg)
     if not (c12.F_FRAG_TERM in excl and has_term):
-        fa = fragment(rule.copy(), ["b", "y", "c", "z"], [1, 2], monoisotopic=sc["mono"])
-        fb = fragment(expl.copy(), ["b", "y", "c", "z"], [1, 2], monoisotopic=sc["mono"])
+        fa = fragment(rule, ["b", "y", "c", "z"], [1, 2], monoisotopic=sc["mono"])
+        fb = fragment(expl, ["b", "y", "c", "z"], [1, 2], monoisotopic=sc["mono"])
         bad = [(x.label, x.mass, y.mass) for x, y in zip(fa, fb) if abs(x.mass - y.mass) > tol]
         if bad:
             problems.append(f"fragment ions differ, e.g. {bad[0][0]}: rule form {bad[0][1]!r} explicit form {bad[0][2]!r} ({len(bad)} ions)")
